@@ -6,6 +6,7 @@ verus! {
 //@nopub
 //@include ioerr.rs
 //@include error.rs
+//@include le.rs
 //@include bits.rs
 //@include bits_body.rs
 } // verus!
